@@ -41,7 +41,7 @@ var (
 		{`zap.Skip()`, zap.Skip()},    // strongly-typed field that encodes to nothing
 		{`"k1"`, "k1"},                // string keys (also usable as values)
 		{`"k2"`, "k2"},
-		{`""`, ""}, // the empty string: a legal string key (and a value)
+		{`""`, ""},   // the empty string: a legal string key (and a value)
 		{`42`, 42},   // non-string key / plain value
 		{`nil`, nil}, // nil key / nil value
 		{`e1`, e1},   // bare errors / error values
@@ -439,6 +439,29 @@ func (c *checker) sweepCase(col *collector, r *runner, m method, lvl zapcore.Lev
 	}
 }
 
+// devCase: the same list through a logger built with zap.Development(): the statement's "never panic
+// and never vanish" carries no exception for development mode (only DPanic-level entries themselves panic there).
+func (c *checker) devCase(col *collector, r *runner, m method, lvl zapcore.Level, idx []int, args []interface{}, exp *expect) {
+	c.evals.Add(1)
+	o := r.structured(m, lvl, args)
+	var ps []problem
+	allowed := m.fam != famWith && lvl >= zap.DPanicLevel && hasMain(o.entries, mainMsg)
+	if o.panicked && !allowed {
+		ps = append(ps, problem{"development:" + kindOf(m) + ":panic", fmt.Sprintf("panic: %v", o.pan)})
+	} else {
+		ps = verify(args, exp, o.entries, verifyOpts{kind: kindOf(m), wantMain: true, mainLevel: mainLevelOf(m, lvl), checkDiag: true, keyPrefix: "development:"})
+	}
+	if len(ps) > 0 {
+		col.add(ps, caseSpec{Part: "dev", Method: m.name, Level: int(lvl), Atoms: append([]int(nil), idx...), Call: "[Development] " + callStr(m, lvl, idx)})
+	}
+}
+
+func newDevRunner(ms []method) *runner {
+	core, logs := observer.New(zap.DebugLevel)
+	s := zap.New(core, zap.Development(), zap.WithFatalHook(zapcore.WriteThenPanic)).Sugar()
+	return &runner{logs: logs, sugar: s, fns: bind(s, ms)}
+}
+
 // errDisabledCase: the same on a core that rejects Error: no panic, and the
 // well-formed arguments are still logged whenever the call's own level is enabled.
 func (c *checker) errDisabledCase(col *collector, r *runner, m method, lvl zapcore.Level, idx []int, args []interface{}, exp *expect) {
@@ -646,6 +669,9 @@ func (c *checker) replay(path string, thorough bool) {
 	case "sweep":
 		args := listOf(s.Atoms)
 		c.sweepCase(col, newRunner(zap.DebugLevel, c.ms), m, lvl, s.Atoms, args, reference(args))
+	case "dev":
+		args := listOf(s.Atoms)
+		c.devCase(col, newDevRunner(c.ms), m, lvl, s.Atoms, args, reference(args))
 	case "errdisabled":
 		args := listOf(s.Atoms)
 		c.errDisabledCase(col, newRunner(errorOff(), c.ms), m, lvl, s.Atoms, args, reference(args))
@@ -712,7 +738,7 @@ func main() {
 		r := newRunner(zap.DebugLevel, ms)
 		col := newCollector()
 		cols[ci] = col
-		var off *runner
+		var off, dev *runner
 		var nfn map[int]interface{}
 		local := map[string]bool{}
 		buf := make([]int, 0, 8)
@@ -732,6 +758,15 @@ func main() {
 				}
 			}
 			if g < offTotal {
+				if dev == nil {
+					dev = newDevRunner(ms)
+				}
+				for _, m := range structured {
+					for _, lvl := range m.levels() {
+						c.devCase(col, dev, m, lvl, idx, args, exp)
+						nOff.Add(1)
+					}
+				}
 				if off == nil {
 					off = newRunner(errorOff(), ms)
 				}
@@ -860,7 +895,7 @@ func main() {
 	run.Finish(map[string]any{
 		"evaluations":         c.evals.Load(),
 		"distinct_nontrivial": len(outcomes) + len(messages),
-		"rule": fmt.Sprintf("structured: every list of length <=%d over the %d atoms %s through every With-family and *w method found by reflection (Log* at each of the 7 levels), Error enabled; the same for length <=%d on a core with Error disabled and <=%d on a no-op logger; chained With-family(a).Infow(b) for all a,b of length <=%d. formatting: %d templates %q x every list of length <=%d over %d atoms through every print/printf/println method at every level. distinct = distinct reference outcomes (expected field classes+keys, dangling value, invalid pairs with position, extra errors) plus distinct (family, expected message)",
+		"rule": fmt.Sprintf("structured: every list of length <=%d over the %d atoms %s through every With-family and *w method found by reflection (Log* at each of the 7 levels), Error enabled; the same for length <=%d on a logger built with Development() and on a core with Error disabled, and <=%d on a no-op logger; chained With-family(a).Infow(b) for all a,b of length <=%d. formatting: %d templates %q x every list of length <=%d over %d atoms through every print/printf/println method at every level. distinct = distinct reference outcomes (expected field classes+keys, dangling value, invalid pairs with position, extra errors) plus distinct (family, expected message)",
 			maxLen, len(atoms), render(allAtomIdx()), offLen, nopLen, chainLen, len(tmpls), tmpls, fLen, len(fa)),
 		"samples":                     samples,
 		"exhaustive":                  true,
